@@ -1,4 +1,328 @@
-//! Tree sibling order through `__verif::tree_dump` (filled in below).
-pub fn tree(_line: &str) -> String {
-    "todo".to_string()
+//! Tree sibling order through `__verif::tree_dump`.
+//!
+//! Case: `<attr> <rev> <item> <item> ...`, items with `;`-separated fields
+//! (names percent-escaped):
+//!   `B;rank;module_path;display;raw;file;line;col;args`   args = `-` | `<k>=<names>`
+//!   `G;rank;module_path;display;raw;file;line;col;gen`    gen  = `-` | `[t:<i>=<name>,...][!c:<kind>:<v>=<name>,...]`
+//! `rank` fixes the relative addresses of the entries: all `BenchEntry` and
+//! `GroupEntry` values live in one leaked arena, in rank order.  Generic
+//! benchmarks live in one leaked array per type, in declaration order, as the
+//! macro generates them.
+use divan::__private::{
+    BenchArgs, BenchEntry, BenchEntryRunner, EntryConst, EntryLocation, EntryMeta, EntryType,
+    GenericBenchEntry, GroupEntry,
+};
+use divan::__verif as v;
+
+use crate::{attr_of, dec_name, dec_names, enc2};
+
+fn leak(s: String) -> &'static str {
+    Box::leak(s.into_boxed_str())
+}
+
+fn noop(_: divan::Bencher) {}
+
+// ---- fixed argument lists (a `fn() -> BenchArgsRunner` cannot capture) ------
+
+const ARGS_TABLE: [&[&str]; 6] = [
+    &["10", "9", "1", "100", "2"],
+    &["1.5", "1.10", "1.5a", "abc", "-3"],
+    &["b", "a", "c"],
+    &["0", "-0", "-0.0", "00"],
+    &["x2", "x10", "x1", "x02"],
+    &["1e3", "999", "inf", "nan", "1000.5", "-inf"],
+];
+
+macro_rules! args_runner {
+    ($idx:expr) => {
+        BenchEntryRunner::Args(|| {
+            static ARGS: BenchArgs = BenchArgs::new();
+            ARGS.runner(|| ARGS_TABLE[$idx], |a| a.to_string(), |_b: divan::Bencher, _a: &&&str| {})
+        })
+    };
+}
+
+fn args_runner(k: usize) -> BenchEntryRunner {
+    match k {
+        0 => args_runner!(0),
+        1 => args_runner!(1),
+        2 => args_runner!(2),
+        3 => args_runner!(3),
+        4 => args_runner!(4),
+        5 => args_runner!(5),
+        _ => panic!("argument table index"),
+    }
+}
+
+// ---- fixed generic types ---------------------------------------------------
+
+pub struct T1;
+pub struct T2;
+pub struct T10;
+pub struct T02;
+
+fn entry_type(i: usize) -> EntryType {
+    match i {
+        0 => EntryType::new::<u8>(),
+        1 => EntryType::new::<u16>(),
+        2 => EntryType::new::<u32>(),
+        3 => EntryType::new::<i64>(),
+        4 => EntryType::new::<String>(),
+        5 => EntryType::new::<Vec<u8>>(),
+        6 => EntryType::new::<&'static str>(),
+        7 => EntryType::new::<T1>(),
+        8 => EntryType::new::<T2>(),
+        9 => EntryType::new::<T10>(),
+        10 => EntryType::new::<T02>(),
+        11 => EntryType::new::<Vec<String>>(),
+        _ => panic!("type index"),
+    }
+}
+
+/// Display name divan derives for the type (through a throw-away entry).
+fn type_display(i: usize) -> String {
+    static G: GroupEntry = GroupEntry {
+        meta: EntryMeta {
+            display_name: "g",
+            raw_name: "g",
+            module_path: "m",
+            location: EntryLocation { file: "f", line: 1, col: 1 },
+            bench_options: None,
+        },
+        generic_benches: None,
+    };
+    let e: &'static GenericBenchEntry = Box::leak(Box::new(GenericBenchEntry {
+        group: &G,
+        bench: BenchEntryRunner::Plain(noop),
+        ty: Some(entry_type(i)),
+        const_value: None,
+    }));
+    let gs: &'static [&'static [GenericBenchEntry]] =
+        Box::leak(vec![std::slice::from_ref(e)].into_boxed_slice());
+    let g: &'static GroupEntry = Box::leak(Box::new(GroupEntry {
+        meta: EntryMeta {
+            display_name: "g",
+            raw_name: "g",
+            module_path: "m",
+            location: EntryLocation { file: "f", line: 1, col: 1 },
+            bench_options: None,
+        },
+        generic_benches: Some(gs),
+    }));
+    let d = v::tree_dump(&[], &[g], None, None);
+    // lines: "0\tP\tm", "1\tP\tg", "2\tL\t<name>"
+    d.last().expect("dump").rsplit('\t').next().unwrap().to_string()
+}
+
+enum Slot {
+    B(BenchEntry),
+    G(GroupEntry),
+}
+
+struct Item {
+    is_group: bool,
+    rank: usize,
+    meta: EntryMeta,
+    args: Option<(usize, Vec<String>)>,
+    types: Vec<(usize, String)>,
+    consts: Option<(char, Vec<(i64, String)>)>,
+}
+
+fn parse_item(tok: &str) -> Item {
+    let f: Vec<&str> = tok.split(';').collect();
+    assert!(f.len() == 9, "item fields");
+    let meta = EntryMeta {
+        module_path: leak(dec_name(f[2])),
+        display_name: leak(dec_name(f[3])),
+        raw_name: leak(dec_name(f[4])),
+        location: EntryLocation {
+            file: leak(dec_name(f[5])),
+            line: f[6].parse().unwrap(),
+            col: f[7].parse().unwrap(),
+        },
+        bench_options: None,
+    };
+    let mut it = Item {
+        is_group: f[0] == "G",
+        rank: f[1].parse().unwrap(),
+        meta,
+        args: None,
+        types: vec![],
+        consts: None,
+    };
+    if f[8] != "-" {
+        if it.is_group {
+            for part in f[8].split('!') {
+                if let Some(ts) = part.strip_prefix("t:") {
+                    for t in ts.split(',') {
+                        let (i, n) = t.split_once('=').unwrap();
+                        it.types.push((i.parse().unwrap(), dec_name(n)));
+                    }
+                } else if let Some(cs) = part.strip_prefix("c:") {
+                    let (k, vs) = cs.split_once(':').unwrap();
+                    let vals = vs
+                        .split(',')
+                        .map(|t| {
+                            let (x, n) = t.split_once('=').unwrap();
+                            (x.parse::<i64>().unwrap(), dec_name(n))
+                        })
+                        .collect();
+                    it.consts = Some((k.chars().next().unwrap(), vals));
+                }
+            }
+        } else {
+            let (k, names) = f[8].split_once('=').unwrap();
+            it.args = Some((k.parse().unwrap(), dec_names(names)));
+        }
+    }
+    it
+}
+
+fn entry_const(kind: char, value: i64, name: &str) -> EntryConst {
+    match kind {
+        'i' => {
+            assert_eq!(value.to_string(), name, "const name");
+            EntryConst::new::<i64>(Box::leak(Box::new(value)))
+        }
+        'c' => {
+            let c = char::from_u32(value as u32).expect("char");
+            assert_eq!(c.to_string(), name, "const name");
+            EntryConst::new::<char>(Box::leak(Box::new(c)))
+        }
+        'b' => {
+            let b = value != 0;
+            assert_eq!(b.to_string(), name, "const name");
+            EntryConst::new::<bool>(Box::leak(Box::new(b)))
+        }
+        _ => panic!("const kind"),
+    }
+}
+
+pub fn tree(line: &str) -> String {
+    let toks = hxlib::toks(line);
+    let attr = attr_of(toks[0]);
+    let reverse = toks[1] == "1";
+    let items: Vec<Item> = toks[2..].iter().filter(|t| !t.is_empty()).map(|t| parse_item(t)).collect();
+
+    // arena in rank order
+    let mut order: Vec<usize> = (0..items.len()).collect();
+    order.sort_by_key(|&i| items[i].rank);
+    let mut arena: Vec<Slot> = Vec::with_capacity(items.len());
+    let mut slot_of = vec![0usize; items.len()];
+    let mut items: Vec<Option<Item>> = items.into_iter().map(Some).collect();
+    let mut extra: Vec<(usize, Vec<(usize, String)>, Option<(char, Vec<(i64, String)>)>)> = vec![];
+    for (slot, &i) in order.iter().enumerate() {
+        let it = items[i].take().unwrap();
+        slot_of[i] = slot;
+        if it.is_group {
+            extra.push((slot, it.types, it.consts));
+            arena.push(Slot::G(GroupEntry { meta: it.meta, generic_benches: None }));
+        } else {
+            let bench = match it.args {
+                None => BenchEntryRunner::Plain(noop),
+                Some((k, names)) => {
+                    let want: Vec<String> = ARGS_TABLE[k].iter().map(|s| s.to_string()).collect();
+                    assert_eq!(want, names, "argument table {k}");
+                    args_runner(k)
+                }
+            };
+            arena.push(Slot::B(BenchEntry { meta: it.meta, bench }));
+        }
+    }
+    let arena: &'static mut [Slot] = Box::leak(arena.into_boxed_slice());
+    let base: *mut Slot = arena.as_mut_ptr();
+
+    // generic benchmarks of the groups (need the group's address first)
+    for (slot, types, consts) in extra {
+        if types.is_empty() && consts.is_none() {
+            continue;
+        }
+        let gptr: *mut GroupEntry = unsafe {
+            match &mut *base.add(slot) {
+                Slot::G(g) => g as *mut GroupEntry,
+                _ => unreachable!(),
+            }
+        };
+        let gref: &'static GroupEntry = unsafe { &*gptr };
+        for (i, n) in &types {
+            assert_eq!(&type_display(*i), n, "type table {i}");
+        }
+        let outer: Vec<&'static [GenericBenchEntry]> = match (&consts, types.is_empty()) {
+            (None, _) => {
+                // types only: one inner array with every type
+                let inner: Vec<GenericBenchEntry> = types
+                    .iter()
+                    .map(|(i, _)| GenericBenchEntry {
+                        group: gref,
+                        bench: BenchEntryRunner::Plain(noop),
+                        ty: Some(entry_type(*i)),
+                        const_value: None,
+                    })
+                    .collect();
+                vec![Box::leak(inner.into_boxed_slice())]
+            }
+            (Some((k, vals)), true) => {
+                let inner: Vec<GenericBenchEntry> = vals
+                    .iter()
+                    .map(|(x, n)| GenericBenchEntry {
+                        group: gref,
+                        bench: BenchEntryRunner::Plain(noop),
+                        ty: None,
+                        const_value: Some(entry_const(*k, *x, n)),
+                    })
+                    .collect();
+                vec![Box::leak(inner.into_boxed_slice())]
+            }
+            (Some((k, vals)), false) => types
+                .iter()
+                .map(|(i, _)| {
+                    let inner: Vec<GenericBenchEntry> = vals
+                        .iter()
+                        .map(|(x, n)| GenericBenchEntry {
+                            group: gref,
+                            bench: BenchEntryRunner::Plain(noop),
+                            ty: Some(entry_type(*i)),
+                            const_value: Some(entry_const(*k, *x, n)),
+                        })
+                        .collect();
+                    let s: &'static [GenericBenchEntry] = Box::leak(inner.into_boxed_slice());
+                    s
+                })
+                .collect(),
+        };
+        let outer: &'static [&'static [GenericBenchEntry]] = Box::leak(outer.into_boxed_slice());
+        unsafe {
+            (*gptr).generic_benches = Some(outer);
+        }
+    }
+
+    let arena: &'static [Slot] = unsafe { std::slice::from_raw_parts(base, order.len()) };
+    let mut benches: Vec<&'static BenchEntry> = vec![];
+    let mut groups: Vec<&'static GroupEntry> = vec![];
+    for i in 0..order.len() {
+        match &arena[slot_of[i]] {
+            Slot::B(b) => benches.push(b),
+            Slot::G(g) => groups.push(g),
+        }
+    }
+    let dump = v::tree_dump(&benches, &groups, None, Some((attr, reverse)));
+    if dump.is_empty() {
+        return "-".to_string();
+    }
+    dump.iter()
+        .map(|l| {
+            let f: Vec<&str> = l.split('\t').collect();
+            let mut s = format!("{}:{}:{}", f[0], f[1], enc2(f[2]));
+            if f.len() > 3 {
+                s.push_str(":a:");
+                if f.len() == 4 {
+                    s.push_str("%0");
+                } else {
+                    s.push_str(&f[4..].iter().map(|a| enc2(a)).collect::<Vec<_>>().join(","));
+                }
+            }
+            s
+        })
+        .collect::<Vec<_>>()
+        .join(" ")
 }
